@@ -14,9 +14,17 @@ streams never form:
   ``linearize(input_data)`` after ``add_differentiated_inputs/outputs`` (the differentiated sets only grow),
   ``linearize(compute_all_jacobians=True)``, ``Discipline.check_jacobian(input_data, input_names=…,
   output_names=…, indices=…)`` followed by the ``linearization_mode`` setter (which keeps the existing
-  ``DisciplineJacApprox``); with the default cache, without cache and with a memory-full cache.
+  ``DisciplineJacApprox``); with the default cache, without cache and with a memory-full cache;
+* (round 3) input data that leave inputs to their DEFAULT values (only the differentiated inputs passed, nothing at
+  all, any subset) after requests made at other points — the requested point is the passed values completed by the
+  default inputs the discipline was built with (`eff_x`) —, the default inputs observed after every request through
+  ``io.input_grammar.defaults`` and ``default_input_data`` (an approximation must leave them unchanged: they define the
+  point of every later request relying on them), and ``Discipline.check_jacobian`` with its documented options
+  (``auto_set_step`` True / False / default, ``linearization_mode``, partial or no ``input_data``, ``step``, ``indices``).
 
-Correspondence: every request is sent to the Lean driver (`req` line, session state = the default step);
+Correspondence: every request is sent to the Lean driver (`req` line, session state = the default step; `dreq` line
+when inputs are left to their defaults or ``auto_set_step`` is used: the model completes the point from the defaults
+and prints the defaults after the request);
 the blocks must be the model's (exactly on the exact stream; 2^-51 relative where a float division rounds).
 Oracle (property text): requested blocks present, of shape (size(output), size(input)), finite, every entry of a
 differentiated component within the analytic bound of the scheme around the exact partial derivative *at the
